@@ -52,6 +52,10 @@ int c_crps(int nval,int ncol,
     double crps_potential, pj, uncertainty, delta_obs;
 	double *a, *b, *g, *o, *r, *c;
 
+    /* At least one forecast and one ensemble member */
+    if(nval<1 || ncol<1)
+        return EDOM;
+
 	/* Initialisations */
     ensemb = (double*)malloc((ncol+1)*sizeof(double));
     a = (double*)malloc((ncol+1)*sizeof(double));
